@@ -138,8 +138,10 @@ def _run_psd(case, ctx):
         pp, vv, bb = list(p), list(v), [False] * n
     else:
         pp, vv, bb = list(p[::-1]), list(v[::-1]), [True] * n
-    iso = pygaps.PointIsotherm(pressure=pp, loading=vv, branch=bb, material="verif-c16", adsorbate=ads_name, temperature=T, pressure_mode="relative", pressure_unit=None, loading_basis="volume_liquid",
-                               loading_unit="cm3", material_basis="mass", material_unit="g", temperature_unit="K")
+    # every other isotherm is recorded in degrees Celsius (the analysis works in kelvin whatever the stored unit)
+    tunit = "°C" if case["seed"] % 2 else "K"
+    iso = pygaps.PointIsotherm(pressure=pp, loading=vv, branch=bb, material="verif-c16", adsorbate=ads_name, temperature=T if tunit == "K" else T - 273.15, pressure_mode="relative", pressure_unit=None,
+                               loading_basis="volume_liquid", loading_unit="cm3", material_basis="mass", material_unit="g", temperature_unit=tunit)
     kw = dict(psd_model=method, pore_geometry=geom, branch=branch, thickness_model=tname, kelvin_model=kname, p_limits=lims)
     if meniscus:
         kw["meniscus_geometry"] = meniscus
